@@ -55,7 +55,9 @@ class Pools:
         import lineax as lx
 
         self.solvers = [lx.CG(rtol=1e-3, atol=1e-3, max_steps=5), lx.CG(rtol=1e-6, atol=1e-6, max_steps=40),
-                        lx.CG(rtol=1e-8, atol=1e-8, max_steps=170)]
+                        lx.CG(rtol=1e-8, atol=1e-8, max_steps=170),
+                        # a solver that cannot converge on the 3x3 test system: makes solver_throw observable
+                        lx.CG(rtol=1e-12, atol=1e-12, max_steps=1)]
         self.options = [{}, {'y0': jnp.zeros(3, jnp.float32)}]
         self.calls: list = []
 
@@ -302,7 +304,24 @@ class History:
                 return
             op, model, ct, cdepth, cstack = self.inverses[arg % len(self.inverses)]
             n0 = len(self.pools.calls)
-            y = w.call('apply_inverse', op)
+            nonconv = model['solver'] is self.pools.solvers[3]
+            try:
+                y = w.call('apply_inverse', op)
+                raised = None
+            except Violation:
+                raise
+            except Exception as e:  # noqa: BLE001
+                raised = e
+                y = np.zeros(3)
+            if nonconv and model['solver_throw'] and raised is None:
+                raise Violation('throw-flag-not-captured', 'the inverse was created under solver_throw=True with a solver that cannot '
+                                                           'converge, but applying it did not raise')
+            if raised is not None and not (nonconv and model['solver_throw']):
+                raise Violation('apply-raises', f'applying the inverse raised {type(raised).__name__} although it was created under '
+                                                f'solver_throw={model["solver_throw"]}, max_steps={model["solver"].max_steps}: {str(raised)[:200]}')
+            if raised is not None:
+                self.invariant()
+                return
             new_calls = self.pools.calls[n0:]
             cb = model['solver_callback']
             if cb in self.pools.callbacks:
@@ -440,7 +459,7 @@ def custom_run(ctx, examples, budget):
     state = {'last': None, 'fail': None}
 
     settings_st = st.fixed_dictionaries({}, optional={
-        'solver': st.integers(0, 2), 'throw': st.booleans(), 'options': st.integers(0, 1), 'callback': st.integers(0, 2)})
+        'solver': st.integers(0, 3), 'throw': st.booleans(), 'options': st.integers(0, 1), 'callback': st.integers(0, 2)})
     sub_st = st.lists(st.one_of(st.tuples(st.just('enter'), settings_st), st.tuples(st.just('read'), st.none()),
                                 st.tuples(st.just('exit'), st.none()), st.tuples(st.just('exit_exc'), st.none())), max_size=6)
 
